@@ -34,4 +34,40 @@ def endingOf (errNil : Bool) (flow : Flow) (interrupted : Bool) : Ending :=
 def frameEnd {C} (commitCond : Bool) (s : State C) : State C :=
   doRollback (if commitCond then doCommit s else s)
 
+/-! ### an internal failure: a statement panics on the frame's own goroutine -/
+
+/-- what ExecuteStatement does to the frame that called it: it returns, or it panics -/
+inductive Outcome (σ : Type)
+  | done (s : σ) (flow : Flow) (errNil : Bool)
+  | panic (s : σ)
+
+def Outcome.state {σ : Type} : Outcome σ → σ
+  | .done s _ _ => s
+  | .panic s => s
+
+/-- how Processor.execute hands its results to the caller.  `deferFn` is the deferred function (entered with the current
+    values of the variables `flow`, `err`; its third argument: recover() returned a report).  With NAMED results the
+    variables the deferred function assigns ARE the results.  With unnamed results they are locals: after a normal
+    `return flow, err` the values are already fixed, and after a recovered panic Go returns the ZERO values — the
+    first StatementFlow constant and a nil error.  Result: (state, flow, err == nil, err is the recovered Fatal Error). -/
+def handBack {σ : Type} (named : Bool) (deferFn : Flow → Bool → Bool → Flow × Bool × Bool) (zero : Flow)
+    (s : σ) (flow : Flow) (errNil panicked : Bool) : σ × Flow × Bool × Bool :=
+  let r := deferFn flow errNil panicked
+  if named then (s, r.1, r.2.1, r.2.2)
+  else if panicked then (s, zero, true, false)
+  else (s, flow, errNil, false)
+
+/-- Processor.execute as a whole: the statement loop (the first two arguments are the variables `flow`, `err == nil`),
+    a panic unwinding to the deferred function before `flow, err = …` is assigned -/
+def executeWithRecover {σ τ : Type} (named : Bool) (deferFn : Flow → Bool → Bool → Flow × Bool × Bool) (zero : Flow)
+    (run : σ → τ → Outcome σ) : Flow → Bool → σ → List τ → σ × Flow × Bool × Bool
+  | flow, errNil, s, [] => handBack named deferFn zero s flow errNil false
+  | flow, errNil, s, st :: rest =>
+    match run s st with
+    | .panic s' => handBack named deferFn zero s' flow errNil true
+    | .done s' fl ok =>
+      if !ok then handBack named deferFn zero s' fl ok false
+      else if fl != Flow.terminate then handBack named deferFn zero s' fl ok false
+      else executeWithRecover named deferFn zero run fl ok s' rest
+
 end Csvq.ProcFrame
